@@ -146,8 +146,10 @@ class DataCollection(HubListener):
     @contextmanager
     def _ignore_link_manager_update(self):
         self._disable_sync_link_manager += 1
-        yield
-        self._disable_sync_link_manager -= 1
+        try:
+            yield
+        finally:
+            self._disable_sync_link_manager -= 1
 
     @contextmanager
     def delay_link_manager_update(self):
@@ -161,8 +163,10 @@ class DataCollection(HubListener):
         after each operation.
         """
         self._disable_sync_link_manager += 1
-        yield
-        self._disable_sync_link_manager -= 1
+        try:
+            yield
+        finally:
+            self._disable_sync_link_manager -= 1
         self._sync_link_manager()
 
     @property
